@@ -417,7 +417,11 @@ def write_evidence(prop, spec, tier, seed, results, native_reports, manifest, wa
         "native_steps": [{k: v for k, v in r.items() if k != "log"} for r in native_reports],
         "observations": observations,
         "samples": samples or [{"note": "no labelled obligations"}],
-        "explanation": spec.get("explanation", ""),
+        "explanation": ("%d CBMC jobs (%d complete/unbounded, %d bounded stand-ins); %d+%d obligations, %d+%d discharged; "
+                        "level is 'proof' only when every deciding job is complete/unbounded, otherwise 'other'. " % (
+                            len(results), len([r for r in results if not r.job.get("route", "L").startswith("B")]),
+                            len([r for r in results if r.job.get("route", "L").startswith("B")]),
+                            proof_obl, bounded_obl, proof_dis, bounded_dis)) + spec.get("explanation", ""),
         "undecided": spec.get("undecided", []),
         "exit_code": rc,
     }
